@@ -17,7 +17,7 @@ import z3
 from . import core
 
 VERIF = os.path.dirname(os.path.dirname(os.path.abspath(__file__)))
-EVID = os.path.join(VERIF, "evidence")
+EVID = os.environ.get("VERIF_EVID") or os.path.join(VERIF, "evidence")  # VERIF_EVID: scratch evidence dir for mutant regression runs
 REPLAYS = os.path.join(EVID, "replays")
 EXIT_OK, EXIT_VIOLATION, EXIT_HARNESS = 0, 1, 2
 
